@@ -5,6 +5,9 @@ CHECK = {
     "packages": ["./actor"],
     "harness": ["actor/zz_verif_c12.go"],
     "entries": [
+        {"fn": P + "vC12_time1", "replay": "model-only", "tiers": ("x",)},
+        {"fn": P + "vC12_time2", "replay": "model-only", "tiers": ("x",)},
+        {"fn": P + "vC12_time3", "replay": "model-only", "tiers": ("x",)},
         {"fn": P + "vC12_time4", "replay": "model-only", "tiers": ("quick",)},
         {"fn": P + "vC12_count4", "replay": "model-only", "tiers": ("quick",)},
         {"fn": P + "vC12_longlived", "replay": "model-only"},
